@@ -585,6 +585,28 @@ func (h *harness) exec(e Event, pendAdd map[int]int) (string, string) {
 			r = "err" // slice bounds in chain[1:indx+1]: a failure either way (C14 judges the panic)
 		}
 		return r, n
+	case "syncdata":
+		// the sync agent's part of a rebuild as far as the controller sees it: the rebuilding replica now has
+		// the chain (and content) of the first RW replica
+		c.Lock()
+		src, dstMode := -1, ""
+		for _, r := range c.ListReplicas() {
+			if src < 0 && r.Mode == types.RW {
+				src = parseAddr(r.Address)
+			}
+			if parseAddr(r.Address) == e.A {
+				dstMode = string(r.Mode)
+			}
+		}
+		c.Unlock()
+		if src < 0 || dstMode != "WO" {
+			return "none", ""
+		}
+		h.mu.Lock()
+		h.reps[e.A].chain = append([]string{}, h.reps[src].chain...)
+		h.reps[e.A].applied = append([]int{}, h.reps[src].applied...)
+		h.mu.Unlock()
+		return "ok", ""
 	case "remove":
 		return guard(func() error { return c.RemoveReplica(addr(e.A)) })
 	case "setmode":
